@@ -137,6 +137,16 @@ fn check_world(w: &World, r: &mut Report) -> bool {
         let uniq: BTreeSet<_> = got.iter().map(|x| x.0.clone()).collect();
         r.case("list.each_element_once", uniq.len() == got.len(), &|| format!("{} @r{}", w.desc, k), &|| "identifier shown twice".into());
         ok_all &= ok && ok2;
+        // C16: the verdict on EVERY op of the history (deliverable, applied, out of order) is "no skipped counter"
+        let applied: BTreeMap<u8, u64> = w.log[k].iter().fold(BTreeMap::new(), |mut m, &j| { let d = w.ops[j].dot(); let e = m.entry(d.actor).or_insert(0); if d.counter > *e { *e = d.counter; } m });
+        for (j, op) in w.ops.iter().enumerate() {
+            let d = op.dot();
+            let want_ok = d.counter <= applied.get(&d.actor).copied().unwrap_or(0) + 1;
+            let got = l.validate_op(op);
+            let ok3 = got.is_ok() == want_ok && match &got { Err(e) => e.actor == d.actor && e.counter_range == (applied.get(&d.actor).copied().unwrap_or(0) + 1..d.counter), Ok(()) => true };
+            r.case("list.validate_op_verdict", ok3, &|| format!("{} @r{} validate_op(op{})", w.desc, k, j), &|| format!("got {:?}, want ok = {}", got, want_ok));
+            ok_all &= ok3;
+        }
     }
     for i in 0..w.reps.len() { for j in 0..i {
         let a: BTreeSet<usize> = w.log[i].iter().copied().collect();
